@@ -132,7 +132,9 @@ def run(pid, tier, seed, replay=None):
         "other_properties_violations_seen": others,
         "new_violations": [{"invariant": inv, "scenario": v["sid"], "replay": p} for (inv, v), p in zip(new, paths)],
         "rule": "seeded scenario generator (families %s) x gate-triggered steps x perturbed schedules; one trace per scenario; "
-                "every property predicate evaluated by TLC after every event" % cfg["families"],
+                "every property predicate evaluated by TLC after every event%s" % (cfg["families"],
+                    "; plus records of ordered shutdowns begun while a scale-down / update is removing a slow dependent" if pid == "C12" else
+                    "; plus records of the effective probe parameters over a parameter grid" if pid == "C10" else ""),
     }
     V.write_evidence(pid, tier, seed, "model_checking", coverage, ASSUMPTIONS, time.time() - t0, len(new))
     if rc == 0:
